@@ -325,7 +325,7 @@ fn inner_rgb(
                 ParsedChannels::List(list) => {
                     let args = ArgumentResult {
                         positional: list,
-                        named: BTreeMap::new(),
+                        named: Default::default(),
                         separator: ListSeparator::Comma,
                         span: args.span(),
                         touched: BTreeSet::new(),
